@@ -374,7 +374,8 @@ def rule_r5(ck, prog):
     if not ctors:
         raise AnalysisBroken('sdk::trace::Span constructor vanished')
     f = ctors[0]
-    g = Graph(prog, f, inline=None, sync_lambdas=True)
+    from .common import same_class_inline
+    g = Graph(prog, f, inline=same_class_inline(prog, rec['qn']), max_depth=4, sync_lambdas=True)
 
     def null_edge(a, b, lab):
         if not lab or not isinstance(lab[0], int):
@@ -393,7 +394,7 @@ def rule_r5(ck, prog):
         'SetResource': ('call', 'GetResource'),
     }
     def rcalls(name):
-        return [p for p in g.points if p.n is not None and p.n['k'] == 'call' and p.n.get('virt') and p.ctx is g.root_ctx and
+        return [p for p in g.points if p.n is not None and p.n['k'] == 'call' and p.n.get('virt') and not (p.ctx is not None and p.ctx.lambda_of) and
                 strip_targs(p.n.get('c', '')).rsplit('::', 1)[-1] == name and qmatch(p.n.get('cls', ''), 'sdk::trace::Recordable')]
     onstart = [p for p in g.calls('SpanProcessor::OnStart')]
     for name, (kind, what) in sorted(setters.items()):
@@ -430,9 +431,10 @@ def rule_r5(ck, prog):
     # attributes / links through the iterables
     for pname, setter in (('attributes', 'SetAttribute'), ('links', 'AddLink')):
         site = 'start:%s' % setter
-        it = [p for p in g.points if p.n is not None and p.n['k'] == 'call' and p.ctx is g.root_ctx and
+        ppid = [p_['id'] for p_ in f.params if p_['name'] == pname]
+        it = [p for p in g.points if p.n is not None and p.n['k'] == 'call' and not (p.ctx is not None and p.ctx.lambda_of) and
               strip_targs(p.n.get('c', '')).rsplit('::', 1)[-1] == 'ForEachKeyValue' and p.n.get('obj') is not None and
-              f.nodes[p.n['obj']].get('name') == pname]
+              p.f.nodes[p.n['obj']].get('id') is not None and ppid and ppid[0] in g.canon_var(p.f.nodes[p.n['obj']]['id'])]
         inner = [p for p in g.points if p.n is not None and p.n['k'] == 'call' and p.n.get('virt') and
                  strip_targs(p.n.get('c', '')).rsplit('::', 1)[-1] == setter and p.ctx is not g.root_ctx]
         ok = bool(it) and bool(inner) and g.exit.id not in g.reachable_from(g.entry, avoid=it, avoid_edges=null_edge)
@@ -611,8 +613,10 @@ def rule_r7(ck, prog, cls='sdk::trace::SpanData', base='sdk::trace::Recordable',
 def rule_r8(ck, prog, rule='C04.R8'):
     """attributes / links / event attributes supplied as iterables are all copied: no copy callback asks the iteration to stop"""
     from .common import callbacks_never_stop
-    hosts = [f for f in prog.funcs.values() if (f.cls or '').startswith(('opentelemetry::sdk::trace::', 'opentelemetry::sdk::common::AttributeMap')) or
-             (f.d.get('lambda') and (f.d.get('parent') or '').startswith(('opentelemetry::sdk::trace::', 'opentelemetry::sdk::common::AttributeMap')))]
+    def in_scope(f):
+        fl = f.d.get('file') or ''
+        return '/sdk/src/trace/' in fl or '/sdk/include/opentelemetry/sdk/trace/' in fl or fl.endswith('/sdk/common/attribute_utils.h')
+    hosts = [f for f in prog.funcs.values() if in_scope(f)]
     n = callbacks_never_stop(ck, prog, rule, hosts, exempt=('EqualTo',))
     if n < 3:
         raise AnalysisBroken('fewer than 3 ForEachKeyValue copy callbacks found in the span / attribute-map code (%d)' % n)
